@@ -34,7 +34,9 @@ LongView == /\ IsEv("longview") /\ E.exc = ""
             /\ E.fwd = LongWant(E.kind)
             /\ IF E.kind = "rev" THEN E.lenhi = E.a /\ E.lenlo = E.b
                ELSE E.bwd = Reverse(LongWant(E.kind)) /\ E.lenhi = 0 /\ E.lenlo = Len(LongWant(E.kind))
-Next == Plain \/ View \/ LongView
+(* Zips whose inputs yield NULL items (two Zips of n pairs each): as many pairs backwards as forwards, in reverse order *)
+ZipNull == IsEv("zipnull") /\ E.exc = "" /\ E.fwd = 2 * E.n /\ E.bwd = 2 * E.n /\ E.revok = 1 /\ E.nulls = (E.n \div 2) + (IF E.n > 1 THEN 1 ELSE 0)
+Next == Plain \/ View \/ LongView \/ ZipNull
 Spec == Init /\ [][Next]_l
 Accepted == LET d == TLCGet("stats").diameter IN
             /\ PrintT(<<"TRACE_MATCHED", d - 1, Len(T)>>)
